@@ -18,6 +18,11 @@ FOCUS = {
   - changes that need a MULTI-STEP HISTORY on one object (call, executor, setup, config reload, compose, deepcopy, failing call, cache write / restart - in some order) before anything differs;
   - changes hiding behind rarely used CONFIGURATION or entry points: tawazi.config.cfg flags and their environment variables (default resource, default is_sequential, profiling of all nodes, RUN_DEBUG_NODES, behaviour of decorated functions called outside a DAG), config_from_yaml / config_from_json (files, duplicate keys, tags as keys), twz_tag / twz_unpack_to / twz_active given at the call site, unpack_to, tuple tags, `dag.results`, `executor.results`, `get_nodes_by_tag`, `DAG.setup(...)` arguments, `executor(cache_in=..., from_cache=..., cache_deps_of=...)`;
   - off-by-one / boundary mistakes (max_concurrency exactly equal to the number of ready nodes, exactly one node, empty DAG, a DAG that returns a constant or an argument, zero / negative / equal priorities, 10+ usages of one function: ids f<<9>> vs f<<10>>, names containing "<<", ">>", ">!>" or ".").""",
+    6: """This is the SIXTH round for this property: scheduler, helpers, configuration and most histories have been used (see the list below). Look for changes of these kinds and be SMALL and SUBTLE (ideally <= 6 changed lines):
+  - VALIDATION and ERROR paths: checks that reject invalid use (wrong / missing / surplus arguments of a DAG call, unknown or ambiguous aliases, illegal dependencies at build time, reuse of an executor, a DAG described inside another description, calling decorated functions outside a DAG) made slightly too strict or too lenient, or raising a different exception type / at a different moment (at construction instead of at call time or vice versa), or swallowing an exception; `except` clauses that became broader or narrower (Exception vs BaseException, KeyboardInterrupt, asyncio.CancelledError);
+  - the SHAPE of what is returned or passed on: tuple vs list vs dict returns of a DAG, single-element tuples, empty returns, None results, `unpack_to` / `twz_unpack_to` with 1 element or with a generator / list result, nested containers of results, results that are themselves tuples / dicts indexed several levels deep, keyword-only and defaulted parameters of the describing function, *args / **kwargs in node functions;
+  - Python-level details: dataclass fields and their defaults, `__eq__` / `__hash__` of the library's own classes, mutable default arguments, shallow vs deep copies, `functools.wraps` / `update_wrapper` metadata, descriptors (`__get__`) and bound methods / staticmethods / lambdas / functools.partial / callable objects as node functions, generators and iterators consumed twice, `is` vs `==`, truthiness of `0` / `""` / empty containers / numpy-like objects whose `__bool__` raises;
+  - resources of the PROCESS: thread pools and event loops that are not shut down, tasks that are left pending, threads created per node, recursion depth on long chains (1000 nodes), quadratic behaviour that turns into a hang for 2000 nodes - when this breaks the property as stated.""",
 }
 
 
